@@ -520,8 +520,11 @@ class Ctx:
     ev = dict(property_id=self.pid, tier=self.tier, seed=self.seed, level="proof",
               coverage=self.cov, assumptions=self.assumptions,
               wall_s=round(time.time() - self.t0, 2), violations=len(self.violations))
-    os.makedirs(os.path.join(VERIF, "evidence"), exist_ok=True)
-    with open(os.path.join(VERIF, "evidence", self.pid + ".json"), "w") as f:
+    # evidence/ describes runs against /repo only; runs against another tree (VERIF_REPO=<scratch
+    # worktree>, used to confirm seeded changes) are kept apart
+    evdir = os.path.join(VERIF, "evidence" if os.path.realpath(REPO) == "/repo" else "evidence_other_tree")
+    os.makedirs(evdir, exist_ok=True)
+    with open(os.path.join(evdir, self.pid + ".json"), "w") as f:
       json.dump(ev, f, indent=1, default=str)
     self.log("done: %d evaluations, %d distinct non-trivial, %d obligations, %d violations, %.1fs" %
              (self.cov["evaluations"], self.cov["distinct_nontrivial"], self.cov["obligations"],
